@@ -670,6 +670,11 @@ func runEngine(c ecase) (sym, det, inconcl string) {
 	if c.SharedOpts {
 		o1 = drive.Options{Extra: shared}
 	}
+	if c.Door == "withobjects" {
+		// the data object is supplied through the option twice: defaults first,
+		// the value that counts after them - the later option replaces the earlier
+		o1.Extra = append(append([]bpmn.Option(nil), o1.Extra...), bpmn.WithDataObjects(map[string]any{"wo": "an earlier default", "wo2": int64(1)}), bpmn.WithDataObjects(map[string]any{"wo": v}))
+	}
 	if p := guard(func() { in, err = drive.New(x, o1) }); p != "" {
 		return "panic", fmt.Sprintf("creating the instance with variable %s panicked: %s", describe(v), p), ""
 	}
@@ -790,6 +795,17 @@ func runEngine(c ecase) (sym, det, inconcl string) {
 		if s, d := checkStored("DoWithResults -> CloneVariables, after two readers edited the values they had read", g, ty, ok); s != "" {
 			return "aliased:" + s, d, ""
 		}
+	case "withobjects":
+		items := in.P.Locator().CloneItems(data.LocatorObject)
+		it, ok := items["wo"]
+		var g any
+		var ty schema.ItemType
+		if ok && it != nil {
+			g, ty = it.Value(), it.Type()
+		}
+		if s, d := checkStored("WithDataObjects (after an earlier WithDataObjects option for the same id) -> CloneItems", g, ty, ok && it != nil); s != "" {
+			return s, d, ""
+		}
 	case "objects":
 		items := in.P.Locator().CloneItems(data.LocatorObject)
 		it, ok := items["out"]
@@ -880,7 +896,7 @@ func TestC16Engine(t *testing.T) {
 		// array positions: first, last, one past the end, far out, negative, not a number, on an empty array, nested
 		"$arr.0", "$arr.2", "$arr.3", "$arr.4", "$arr.99999999999999999999", "$arr.-1", "$arr.x", "$arr.#", "$empty.0", "$empty.1", "$nest.l.0.1", "$nest.l.1.1", "$nest.l.2", "$nest.l.2.0", "$arr", "$arr.0.0"}
 	rapid.Check(t, func(rt *rapid.T) {
-		c := ecase{V: genValue(rt, 3, false), Door: rapid.SampledFrom([]string{"variables", "results", "objects", "property", "declared"}).Draw(rt, "door"),
+		c := ecase{V: genValue(rt, 3, false), Door: rapid.SampledFrom([]string{"variables", "results", "objects", "property", "declared", "withobjects"}).Draw(rt, "door"),
 			Other: genValue(rt, 2, false), SharedOpts: rapid.IntRange(0, 3).Draw(rt, "sharedOpts") == 0}
 		if c.Door == "declared" {
 			n := rapid.IntRange(1, 3).Draw(rt, "nDeclared")
